@@ -222,6 +222,9 @@ impl From<HttpResponse> for crate::ResponseAsync {
     fn from(effect_response: HttpResponse) -> Self {
         let mut res = http_types::Response::new(effect_response.status);
         res.set_body(effect_response.body);
+        // `set_body` defaults the content type to `application/octet-stream`. The app should
+        // only ever see the headers the shell actually sent.
+        res.remove_header(http_types::headers::CONTENT_TYPE);
         for header in effect_response.headers {
             res.append_header(header.name.as_str(), header.value);
         }
